@@ -6,19 +6,22 @@
 
      API calls (logged when the call is made):
        adv(d, ak, fl)  advstop_call(d)  advstop(d) [returned, and nothing of d is on the air any more]  scan(d, m)  connect(d, tr, a, ak, own)  send(d, h, n)
-       disconnect(d, h)
+       disconnect(d, h)  [h: an LE / BR/EDR connection or an (e)SCO link]
+       sco(d, h)                         (e)SCO link requested on the BR/EDR connection h -> ScoCall
      T2 = the controller -> host HCI tap, logged when the controller emits the packet:
-       t2_conn(d, h, role, tr, a, ak)    LE / BR/EDR Connection Complete  -> LinkConnect, ConnectInd,
-                                         ClassicAccept, ClassicAccepted
+       t2_conn(d, h, role, tr, a, ak)    LE / BR/EDR / Synchronous Connection Complete (tr = "le" | "br" |
+                                         "sco")  -> LinkConnect, ConnectInd, ClassicAccept, ClassicAccepted,
+                                         ScoAccept, ScoAccepted
        t2_disc(d, h)                     Disconnection Complete -> CtrlDisc, LinkTerm, ConnFail
        t2_acl(d, h, fd, n)               ACL data packet with test PDU n of sender fd -> LinkData
        t2_report(d, a, ak, rt, what, src) advertising report (rt = "adv" | "rsp") whose payload is
                                          what = "adv" | "rsp" | "empty" | "other" of device src
      Device level (logged when the event is emitted / the call returns):
-       conn_evt(d, h, role, tr, a, ak)   'connection' event            -> HostEvt
+       conn_evt(d, h, role, tr, a, ak)   'connection' / 'sco_connection' event -> HostEvt
        disc_evt(d, h)                    'disconnection' event         -> HostEvt
        recv(d, h, fd, n, ok)             PDU on the test fixed channel -> HostEvt  (ok: bytes identical)
-       ret_connect(d, h, role, tr, a, ak) Device.connect returned that Connection -> RetConnect
+       ret_connect(d, ctr, h, role, tr, a, ak) Device.connect(transport = ctr) returned that Connection
+                                         (whose transport is tr) -> RetConnect
        advert(d, a, ak, what, src)       'advertisement' event: what = "adv" | "advrsp" | "other"
      settle                              the loop ran until nothing moved  -> Quiesce
 
@@ -55,6 +58,9 @@ T2Conn ==
     \/ /\ Ev.tr = "br"
        /\ \E k \in Ks : \/ conns[k].p = Ev.d /\ conns[k].ca = EvAddr /\ ClassicAccept(k, Ev.h)
                         \/ conns[k].c = Ev.d /\ conns[k].pa = EvAddr /\ ClassicAccepted(k, Ev.h)
+    \/ /\ Ev.tr = "sco"
+       /\ \E k \in Ks : \/ conns[k].p = Ev.d /\ conns[k].ca = EvAddr /\ ScoAccept(k, Ev.h)
+                        \/ conns[k].c = Ev.d /\ conns[k].pa = EvAddr /\ ScoAccepted(k, Ev.h)
 
 T2Disc ==
     \E t \in CtlEnd(Ev.d, Ev.h) :
@@ -81,7 +87,7 @@ ConnEvt ==
     /\ \E ks \in {x \in Ends : Dev(x[1], x[2]) = Ev.d} :
         /\ HeadIs(Ev.d, "conn", ks)
         /\ conns[ks[1]].h[ks[2]] = Ev.h /\ conns[ks[1]].tr = Ev.tr
-        /\ ks[2] = SideOf(Ev.role) /\ Peer(ks[1], ks[2]) = EvAddr
+        /\ (Ev.tr = "sco" \/ ks[2] = SideOf(Ev.role)) /\ Peer(ks[1], ks[2]) = EvAddr     \* (an (e)SCO link has no role)
     /\ HostEvt(Ev.d)
 
 DiscEvt ==
@@ -96,18 +102,23 @@ Recv ==
         /\ Dev(ks[1], Other(ks[2])) = Ev.fd
     /\ HostEvt(Ev.d)
 
-\* the Connection object that connect() returned: the newest end of d reported under that handle
+\* the Connection object that connect() returned: the end of d that its host holds as live under that handle
+\* (there is at most one); if there is none (reported closed before connect returned), the newest end of d
+\* reported under that handle
 Returned(d, h) ==
     LET C == {ks \in Ends : Dev(ks[1], ks[2]) = d /\ conns[ks[1]].h[ks[2]] = h /\ conns[ks[1]].st[ks[2]] # "none"}
-    IN {ks \in C : \A y \in C : y[1] <= ks[1]}
+    IN IF HostEnd(d, h) # {} THEN HostEnd(d, h) ELSE {ks \in C : \A y \in C : y[1] <= ks[1]}
 
 RetConn ==
     \E ks \in Returned(Ev.d, Ev.h) :
         /\ ks[2] = SideOf(Ev.role) /\ Peer(ks[1], ks[2]) = EvAddr /\ conns[ks[1]].tr = Ev.tr
-        /\ RetConnect(Ev.d, ks[1])
+        /\ RetConnect(Ev.d, Ev.ctr, ks[1])
 
 TrSend ==
     \E ks \in HostEnd(Ev.d, Ev.h) : conns[ks[1]].ns[ks[2]] + 1 = Ev.n /\ Send(ks[1], ks[2])
+
+TrSco ==
+    \E ks \in HostEnd(Ev.d, Ev.h) : ScoCall(ks[1], ks[2])
 
 TrDisconnect ==
     \E ks \in HostEnd(Ev.d, Ev.h) :
@@ -132,6 +143,7 @@ Logged ==
        \/ Ev.e = "connect" /\ Call(Ev.d, Ev.tr, EvAddr, Ev.own)
        \/ Ev.e = "send" /\ TrSend
        \/ Ev.e = "disconnect" /\ TrDisconnect
+       \/ Ev.e = "sco" /\ TrSco
        \/ Ev.e = "t2_conn" /\ T2Conn
        \/ Ev.e = "t2_disc" /\ T2Disc
        \/ Ev.e = "t2_acl" /\ T2Acl
@@ -160,11 +172,11 @@ Diag ==
       unpopped |-> {Head(evq[d]).t : d \in {x \in Devs : evq[x] # <<>>}},
       want    |-> {ClassOf(ks[1], ks[2]) : ks \in {x \in Ends : conns[x[1]].want[x[2]]}},
       canconnect |-> {d \in Devs : MustLinkConnect(d)},
-      callable |-> {d \in Devs : call[d].on /\ \E k \in Ks : Returnable(d, k)},
+      callable |-> {d \in Devs : \E tr \in Trs : call[d][tr].on /\ \E k \in Ks : Returnable(d, tr, k)},
       owed    |-> {[mode |-> scan[p[1]], flav |-> adv[p[2]].flav] : p \in {x \in Devs \X Devs : ScanOwed(x[1], x[2])}},
       ends    |-> [d \in Devs |-> {<<conns[ks[1]].h[ks[2]], ks[2], conns[ks[1]].st[ks[2]], conns[ks[1]].ctl[ks[2]], conns[ks[1]].link>> :
                                     ks \in {x \in Ends : Dev(x[1], x[2]) = d}}],
-      calls   |-> {d \in Devs : call[d].on},
+      calls   |-> {d \in Devs : \E tr \in Trs : call[d][tr].on},
       pend    |-> {d \in Devs : pend[d].on} ]
 
 Done ==
